@@ -31,7 +31,16 @@ class Check:
 
     # -- known findings ---------------------------------------------------------------
     def known_for(self, site):
-        return [e for e in self.known if e["site"] == site or (e["site"].endswith("*") and site.startswith(e["site"][:-1]))]
+        out = []
+        for e in self.known:
+            pat = e["site"]
+            if pat == site:
+                out.append(e)
+            elif pat.endswith("*"):
+                base = pat[:-1]
+                if site == base or site.startswith(base + " ") or site.startswith(base + "["):
+                    out.append(e)
+        return out
 
     def witness_still_fails(self, entry):
         """replay the recorded witness; an entry whose witness no longer fails is ignored (treated as fixed)"""
